@@ -685,11 +685,51 @@ fn serve() {
     }
 }
 
+fn runprog(args: &[String]) -> i32 {
+    let Some(path) = args.first() else { return 2 };
+    let Ok(code) = std::fs::read_to_string(path) else { return 2 };
+    let mut ctx = Context::new(BuiltinModuleImporter::default());
+    let prints: Arc<Mutex<Vec<Markup>>> = Arc::new(Mutex::new(vec![]));
+    let prints_c = prints.clone();
+    let mut settings = InterpreterSettings {
+        print_fn: Box::new(move |m: &Markup| {
+            prints_c.lock().unwrap().push(m.clone());
+        }),
+    };
+    for m in &args[1..] {
+        if let Err(e) = ctx.interpret_with_settings(&mut settings, &format!("use {m}"), CodeSource::Internal) {
+            println!("{}", json!({"ok": false, "stage": "module", "msg": format!("{e}")}));
+            return 2;
+        }
+    }
+    let r = ctx.interpret_with_settings(&mut settings, &code, CodeSource::Text);
+    let p: Vec<String> = prints.lock().unwrap().iter().map(plain).collect();
+    let hist: Vec<(String, u64)> = verif::take_opcode_histogram()
+        .iter()
+        .map(|(b, n)| (verif::opcode_name(*b).unwrap_or("INVALID").to_string(), *n))
+        .collect();
+    match r {
+        Ok((_, InterpreterResult::Value(v))) => {
+            println!("{}", json!({"ok": true, "value": out::value_json(&v), "prints": p, "opcodes": hist}))
+        }
+        Ok((_, InterpreterResult::Continue)) => {
+            println!("{}", json!({"ok": true, "value": J::Null, "prints": p, "opcodes": hist}))
+        }
+        Err(e) => println!("{}", json!({"ok": false, "stage": "program", "msg": format!("{e}"), "prints": p})),
+    }
+    0
+}
+
 fn main() {
     let argv: Vec<String> = std::env::args().collect();
     if argv.get(1).map(|s| s.as_str()) == Some("listcheck") {
         // stand-alone list explorer (this is what runs under Miri)
         std::process::exit(listcheck::main_standalone(&argv[2..]));
+    }
+    if argv.get(1).map(|s| s.as_str()) == Some("runprog") {
+        // stand-alone: interpret the modules given after the file name, then the program in the file, and
+        // print one JSON line with value / prints / error (this is what runs under Miri for C09)
+        std::process::exit(runprog(&argv[2..]));
     }
     // Run everything on a thread with the stack size of the CLI's main thread (8 MiB),
     // so that stack-depth verdicts match what a user of the binary would see.
